@@ -371,7 +371,7 @@ def apply_json_struct_fault(value, f):
 # ---------------------------------------------------------------- case generation
 def gen_case(seed):
     rng = random.Random(seed)
-    decoder = rng.choice(["xml-lxml", "xml-native", "xml-lxml", "xml-native", "json", "dict"])
+    decoder = rng.choice(["xml-lxml", "xml-native", "xml-lxml", "xml-native", "xml-lxml", "xml-native", "json", "json", "dict", "dict", "xml-tree-lxml", "xml-tree-native"])
     if decoder.startswith("xml"):
         name = rng.choice(sorted(Store.xml))
         n = len(Store.xml[name][0])
@@ -521,6 +521,8 @@ def make_decoder(case, context):
 
     cfg = O.parser_config(case["cfg"])
     dec = case["decoder"]
+    if dec.startswith("xml-tree-"):
+        return parsers.TreeParser(config=cfg, context=context, handler=O._handlers()[dec.split("-")[2]])
     if dec == "xml-lxml":
         return parsers.XmlParser(config=cfg, context=context, handler=O._handlers()["lxml"])
     if dec == "xml-native":
@@ -561,6 +563,10 @@ def run_case(case, context, meter, base_steps):
     payload, ck, landed = materialize(case)
     clazz = None if case.get("noclass") else O._resolve_clazz(ck)
     dec = case["decoder"]
+    if dec.startswith("xml-tree-"):
+        from xsdata.formats.dataclass.models.generics import AnyElement
+
+        clazz = AnyElement  # the generic tree model: any well-formed document fits
     tool = make_decoder(case, context)
     key = case_key(case)
     valid_len = len(Store.xml[case["doc"]][0]) if dec.startswith("xml") else len(Store.json[case["doc"]][0])
@@ -618,7 +624,7 @@ def run_case(case, context, meter, base_steps):
             out["detail"] = str(e)[:300]
     out["steps"] = steps
     out["consumed"] = reader.pos if reader is not None else None
-    if dec == "xml-native" and out["outcome"] == "instance":
+    if dec in ("xml-native", "xml-tree-native") and out["outcome"] == "instance":
         if not wellformed_judge(payload):
             out["outcome"] = "accepted_malformed"
             out["sig"] = ["accepted_malformed", dec]
@@ -690,7 +696,7 @@ def run_batch_cases(cases, emit):
             summary["nontrivial"].add(core.digest([case_key(case), case["faults"]]))
         if out.get("wf") is False:
             summary["wf_rejects"] += 1
-            if case["decoder"] == "xml-native" and oc != "accepted_malformed":
+            if case["decoder"] in ("xml-native", "xml-tree-native") and oc != "accepted_malformed":
                 summary["native_rejected_malformed"] += 1
         if "sig" in out:
             summary["viol"].append({"case": case, "out": {k: v for k, v in out.items() if k != "wf"}, "sig": out["sig"]})
